@@ -840,6 +840,11 @@ type pemItem struct {
 func c06ToCRLF(b []byte) []byte { return bytes.ReplaceAll(b, []byte("\n"), []byte("\r\n")) }
 
 func c06PEMCase(c *Ctx, tag string, data []byte, its []pemItem) {
+	c06PEMCaseN(c, tag, "bundle.pem", data, its)
+}
+
+// c06PEMCaseN: the same under a file name of the caller's choice (a table row may claim files by name)
+func c06PEMCaseN(c *Ctx, tag, name string, data []byte, its []pemItem) {
 	begin := []byte("-----BEGIN ")
 	dec := SL{}
 	desc := SL{}
@@ -865,7 +870,6 @@ func c06PEMCase(c *Ctx, tag string, data []byte, its []pemItem) {
 		}
 		off++
 	}
-	name := "bundle.pem"
 	cands, insp := c06Inspect(c, name, data, "PEMFile")
 	layout, alone := SL{}, SL{}
 	if its != nil {
@@ -1060,6 +1064,8 @@ func genC06PEM(c *Ctx) {
 		}
 		c06PEMCase(c, "written", c06PEMRender(its), its)
 	}
+	// every label class in every position, under neutral names and names a table row might claim
+	genC06PEMLabels(c, pool, cert, key, pgp)
 	// every pool block once alone and once between two others
 	for i, b := range pool {
 		if !c.Thorough() && i%3 != 0 {
@@ -1476,6 +1482,11 @@ func genC06JKS(c *Ctx) {
 		// timestamps at the limits of int64 milliseconds
 		emitV("limits", jce, 2, ffMac, []jksEntry{{typ: 2, alias: "min", date: 1 << 63, certs: []jksCert{good}}, {typ: 2, alias: "max", date: 1<<63 - 1, certs: []jksCert{good}},
 			{typ: 2, alias: "minus1", date: ^uint64(0), certs: []jksCert{good}}, {typ: 2, alias: "zero", date: 0, certs: []jksCert{good}}})
+		// the file ends with the 20 octets of its digest, whatever they are: octets that look like a line ending included
+		for _, tail := range [][]byte{{0x0a}, {0x0d, 0x0a}, {0x0d}, {0x0a, 0x0a}, {0x20}, {0x00}, {0x1a}} {
+			mac := append(bytes.Repeat([]byte{0x5a}, 20-len(tail)), tail...)
+			emitV("limits", jce, 2, mac, []jksEntry{{typ: 2, alias: "digest", date: 17, certs: []jksCert{good}}, {typ: 1, alias: "k", date: 18, key: keys[0], certs: []jksCert{good2}}})
+		}
 		// the version field is not interpreted
 		for _, v := range []uint32{0, 1, 3, 0xffffffff} {
 			emitV("limits", jce, v, zeroMac, []jksEntry{{typ: 2, alias: "v", date: 10, certs: []jksCert{good}}})
